@@ -124,7 +124,7 @@ impl Prop for C03 {
     }
 
     fn run_case(&mut self, _idx: u64, rng: &mut Rng, ctx: &mut Ctx) {
-        let o = Opts { data: true, func: true, tron: rng.coin(), stop: true, max_lines: 24 };
+        let o = Opts { data: true, func: true, tron: rng.coin(), stop: true, max_lines: 24, input: true, frac: rng.coin() };
         let p = gen::generate(rng, o);
         let plines = gen::render_spelled(&p, rng.next_u64());
         let mut s = Session::new();
@@ -615,7 +615,7 @@ impl C18 {
     /// statements; the reference interpreter says how many FOR and GOSUB frames are open at each
     /// marker, the real value stack is read through the probe each time Z9 changes.
     fn shape_case(&self, rng: &mut Rng, ctx: &mut Ctx) {
-        let o = Opts { data: rng.coin(), func: rng.chance(1, 3), tron: false, stop: false, max_lines: 30 };
+        let o = Opts { data: rng.coin(), func: rng.chance(1, 3), tron: false, stop: false, max_lines: 30, input: false, frac: rng.coin() };
         let mut p = gen::generate(rng, o);
         let passes = rng.range(2, 9);
         if !gen::loop_and_mark(&mut p, rng, passes) {
